@@ -109,6 +109,23 @@ func failScript(failAt map[int]bool) double.Script {
 	}
 }
 
+// c03script is the handler script of case idx: the scripted failures, and in every sixth case a handler that
+// returns nothing (nil message, nil error) for some calls - the framework must still answer such a request
+// with exactly one frame and go on.
+func c03script(idx int, pc pipeCase) double.Script {
+	fail := failScript(pc.FailAt)
+	if idx%6 != 4 {
+		return fail
+	}
+	nilAt := 1 + idx/6%3
+	return func(cl *double.Call) (*redis.Message, error, bool) {
+		if cl.N%4 == nilAt {
+			return nil, nil, true
+		}
+		return fail(cl)
+	}
+}
+
 func c03get(idx int) pipeCase {
 	r := rng.New(c03.seed, rng.Str("C03"), uint64(idx))
 	return genPipe(r, idx, c03.maxN, idx, true)
@@ -147,7 +164,7 @@ func c03run(idx int) run.Result {
 		}
 	}
 	desc := func(extra map[string]any) any {
-		m := map[string]any{"requests": reqStrings(reqs), "kinds": kinds(pc), "fail_calls": keysOf(pc.FailAt), "stream_hex": hexClip(stream, 500)}
+		m := map[string]any{"requests": reqStrings(reqs), "kinds": kinds(pc), "fail_calls": keysOf(pc.FailAt), "handler_returns_nothing_for_some_calls": idx%6 == 4, "stream_hex": hexClip(stream, 500)}
 		for k, v := range extra {
 			m[k] = v
 		}
@@ -163,7 +180,7 @@ func c03run(idx int) run.Result {
 
 	// ---- reference run: one request per chunk ----
 	rec := double.NewRec()
-	rec.Script = failScript(pc.FailAt)
+	rec.Script = c03script(idx, pc)
 	ref := runPipe(newServer(rec), reqs, chunkAt(stream, ends), sconn.Script{End: sconn.EOF})
 	calls := rec.Snapshot()
 	res.Count("handler_calls", int64(len(calls)))
@@ -215,10 +232,12 @@ func c03run(idx int) run.Result {
 	}
 	for i := 0; i < wantFrames; i++ {
 		cs := callsOf(i)
-		failed := false
+		failed, nothing := false, false
 		for _, c := range cs {
 			if c.Err != "" {
 				failed = true
+			} else if c.NilMsg {
+				nothing = true
 			}
 		}
 		rep := ref.Frames[i]
@@ -230,6 +249,9 @@ func c03run(idx int) run.Result {
 				res.Violate(sig("handler-error", i), "a handler error becomes an error reply", fmt.Sprintf("request %d: reply %s", i, clipS(rep.String(), 200)), desc(nil))
 				return res
 			}
+		case nothing:
+			// one frame was written for it (counted above) and the following requests are judged normally
+			res.Count("handler_returned_nothing", 1)
 		case q.Kind == "quit":
 			if !resp.Equal(rep, resp.Status("OK")) {
 				res.Violate(sig("quit-reply", i), "QUIT is answered +OK", rep.String(), desc(nil))
@@ -306,7 +328,7 @@ func c03run(idx int) run.Result {
 	}
 	for _, how := range hows {
 		rec2 := double.NewRec()
-		rec2.Script = failScript(pc.FailAt)
+		rec2.Script = c03script(idx, pc)
 		chunks := makeChunks(stream, ends, how, r)
 		pr := runPipe(newServer(rec2), reqs, chunks, sconn.Script{End: sconn.EOF})
 		res.Count("would_block_reads_judged", int64(len(pr.Snap.WouldBlocks)))
@@ -368,7 +390,7 @@ func init() {
 	run.Register(&run.Prop{
 		ID: "C03", Level: "exploration",
 		Rule: func(tier string) string {
-			return "case = one pipeline of 1..N requests (N=8 quick, 32 thorough; request 0 rotates over every grammar entry; the rest random: valid vectors with all option flags, ill-formed variants, surplus arguments, unknown commands, QUIT) with a recording handler scripted to fail chosen calls, served over a scripted connection under: one request per chunk (reference), whole, 1-byte, two random k-way partitions and every 2-way split of short streams. Oracle: at every would-block read complete frames == requests fully delivered; one frame per request; reply i is what the double returned for request i; handler error => error frame and next request normal; QUIT => +OK, close, nothing behind it executed; outputs byte-identical across chunkings; spin = >=3 s CPU without a transport/handler event (child watchdog). distinct = (pipeline, served read-size sequence); non-trivial = pipeline length >= 2 or non-whole chunking"
+			return "case = one pipeline of 1..N requests (N=8 quick, 32 thorough; request 0 rotates over every grammar entry; the rest random: valid vectors with all option flags, ill-formed variants, surplus arguments, unknown commands, QUIT) with a recording handler scripted to fail chosen calls (and, in every sixth case, to return a nil message without an error for every fourth call), served over a scripted connection under: one request per chunk (reference), whole, 1-byte, two random k-way partitions and every 2-way split of short streams. Oracle: at every would-block read complete frames == requests fully delivered; one frame per request; reply i is what the double returned for request i; handler error => error frame and next request normal; QUIT => +OK, close, nothing behind it executed; outputs byte-identical across chunkings; spin = >=3 s CPU without a transport/handler event (child watchdog). distinct = (pipeline, served read-size sequence); non-trivial = pipeline length >= 2 or non-whole chunking"
 		},
 		Assumptions: []string{"spin detection threshold: 3 s of process CPU time without any transport/handler event", "wall-clock watchdog firing is reported inconclusive"},
 		Setup: func(tier string, seed uint64) int {
